@@ -471,6 +471,8 @@ def plan(tier):
               for b in range(a, len(LINE_SEQS))]
     units += [('adjacent', c) for c in WIDE if c in cat]
     units += [('threads', a, b) for a, b in [(0, 1), (2, 3), (1, 4)]]
+    from mc import wrgraph as _w
+    units += _w.live_units()
     units += [('many', i) for i in range(len(many_files()))]
     nsp = sum(len(spellings(c, l)) for c, l in cat.items())
     return {
@@ -508,6 +510,11 @@ def run_unit(cname, tier):
         # interleaving with <= 2 / 3 preemptions (mc/sched.py)
         from mc import wrgraph
         return wrgraph.run_thread_unit(cname, tier, Acc)
+    if isinstance(cname, tuple) and cname[0] == 'live':
+        # two writers / two readers alive in one thread, calls merged in
+        # every order: newline bytes belong to the section, not the process
+        from mc import wrgraph
+        return wrgraph.run_live_unit(cname, tier, Acc)
     if isinstance(cname, tuple) and cname[0] == 'adjacent':
         c = cname[1]
         cat = catalogue()
@@ -614,6 +621,9 @@ def replay(payload):
     elif payload.get('kind') == 'threads':
         from mc import wrgraph
         viols = wrgraph.replay_threads(payload)
+    elif payload.get('kind') == 'live':
+        from mc import wrgraph
+        viols = wrgraph.replay_live(payload)
     elif payload.get('kind') == 'adjacent':
         viols = check_adjacent(payload['sp'], payload['cname'],
                                payload['cp'])
